@@ -131,20 +131,20 @@ func (g *Graph) BulkAdd(stream <-chan *gdbi.GraphElement) error {
 
 // DelVertex is not implemented in the SQL driver
 func (g *Graph) DelVertex(key string) error {
-	stmt := fmt.Sprintf("DELETE FROM %s WHERE gid='%s'", g.v, key)
-	_, err := g.db.Exec(stmt)
+	stmt := fmt.Sprintf("DELETE FROM %s WHERE gid=$1", g.v)
+	_, err := g.db.Exec(stmt, key)
 	if err != nil {
 		return fmt.Errorf("deleting vertex: %v", err)
 	}
 
-	stmt = fmt.Sprintf(`DELETE FROM %s WHERE "from"='%s'`, g.e, key)
-	_, err = g.db.Exec(stmt)
+	stmt = fmt.Sprintf(`DELETE FROM %s WHERE "from"=$1`, g.e)
+	_, err = g.db.Exec(stmt, key)
 	if err != nil {
 		return fmt.Errorf("deleting outgoing edges for %s: %v", key, err)
 	}
 
-	stmt = fmt.Sprintf(`DELETE FROM %s WHERE "to"='%s'`, g.e, key)
-	_, err = g.db.Exec(stmt)
+	stmt = fmt.Sprintf(`DELETE FROM %s WHERE "to"=$1`, g.e)
+	_, err = g.db.Exec(stmt, key)
 	if err != nil {
 		return fmt.Errorf("deleting incoming edges for %s: %v", key, err)
 	}
@@ -154,8 +154,8 @@ func (g *Graph) DelVertex(key string) error {
 
 // DelEdge is not implemented in the SQL driver
 func (g *Graph) DelEdge(key string) error {
-	stmt := fmt.Sprintf("DELETE FROM %s WHERE gid='%s'", g.e, key)
-	_, err := g.db.Exec(stmt)
+	stmt := fmt.Sprintf("DELETE FROM %s WHERE gid=$1", g.e)
+	_, err := g.db.Exec(stmt, key)
 	if err != nil {
 		return fmt.Errorf("deleting edge: %v", err)
 	}
@@ -173,12 +173,12 @@ func (g *Graph) GetTimestamp() string {
 
 // GetVertex loads a vertex given an id. It returns a nil if not found.
 func (g *Graph) GetVertex(gid string, load bool) *gdbi.Vertex {
-	q := fmt.Sprintf(`SELECT gid, label FROM %s WHERE gid='%s'`, g.v, gid)
+	q := fmt.Sprintf(`SELECT gid, label FROM %s WHERE gid=$1`, g.v)
 	if load {
-		q = fmt.Sprintf(`SELECT * FROM %s WHERE gid='%s'`, g.v, gid)
+		q = fmt.Sprintf(`SELECT * FROM %s WHERE gid=$1`, g.v)
 	}
 	vrow := &row{}
-	err := g.db.QueryRowx(q).StructScan(vrow)
+	err := g.db.QueryRowx(q, gid).StructScan(vrow)
 	if err != nil {
 		log.WithFields(log.Fields{"error": err, "query": q}).Error("GetVertex: StructScan")
 		return nil
@@ -193,12 +193,12 @@ func (g *Graph) GetVertex(gid string, load bool) *gdbi.Vertex {
 
 // GetEdge loads an edge  given an id. It returns a nil if not found.
 func (g *Graph) GetEdge(gid string, load bool) *gdbi.Edge {
-	q := fmt.Sprintf(`SELECT gid, label, "from", "to" FROM %s WHERE gid='%s'`, g.e, gid)
+	q := fmt.Sprintf(`SELECT gid, label, "from", "to" FROM %s WHERE gid=$1`, g.e)
 	if load {
-		q = fmt.Sprintf(`SELECT * FROM %s WHERE gid='%s'`, g.e, gid)
+		q = fmt.Sprintf(`SELECT * FROM %s WHERE gid=$1`, g.e)
 	}
 	erow := &row{}
-	err := g.db.QueryRowx(q).StructScan(erow)
+	err := g.db.QueryRowx(q, gid).StructScan(erow)
 	if err != nil {
 		log.WithFields(log.Fields{"error": err, "query": q}).Error("GetEdge: StructScan")
 		return nil
@@ -251,8 +251,8 @@ func (g *Graph) VertexLabelScan(ctx context.Context, label string) chan string {
 	o := make(chan string, 100)
 	go func() {
 		defer close(o)
-		q := fmt.Sprintf("SELECT gid FROM %s WHERE label='%s'", g.v, label)
-		rows, err := g.db.QueryxContext(ctx, q)
+		q := fmt.Sprintf("SELECT gid FROM %s WHERE label=$1", g.v)
+		rows, err := g.db.QueryxContext(ctx, q, label)
 		if err != nil {
 			log.WithFields(log.Fields{"error": err}).Error("VertexLabelScan: QueryxContext")
 			return
